@@ -337,7 +337,7 @@ STRAYS = [{"jsonrpc": "2.0", "id": "stale-17"}, {}, {"jsonrpc": "2.0", "id": "x"
 # what an earlier child of the same client object left unterminated on its stdout before it went away
 TAILS = {"none": None, "text": b"server shutting down ...", "half-json": b'{"jsonrpc":"2.0","id":"a","resu',
          "line+text": b'{"jsonrpc":"2.0","method":"notifications/message","params":{}}\nbye', "cr": b"\r", "open-bracket": b"["}
-PR_IDS = {"zero": 0, "empty": "", "str": "a", "int": 7, "digits": "7", "neg": -1}
+PR_IDS = {"zero": 0, "empty": "", "str": "a", "int": 7, "digits": "7", "neg": -1, "uni": "\u017c-2"}
 
 
 def run_per_request(ctl: explorer.Ctl, cfg: Dict[str, Any]) -> Dict[str, Any]:
@@ -387,7 +387,7 @@ def run_per_request(ctl: explorer.Ctl, cfg: Dict[str, Any]) -> Dict[str, Any]:
             return
         st["answered"] = True
         order = perms[ctl.choose(len(perms), "answer-order")]
-        grouping = ctl.choose(2 + len(STRAYS) + 1, "grouping")
+        grouping = ctl.choose(2 + len(STRAYS) + 1 + 2, "grouping")
         answers = [{"jsonrpc": "2.0", "id": ids[i], "result": res(i)} for i in order]
         lines = [(json.dumps(a) + "\n").encode() for a in answers]
         note = (json.dumps({"jsonrpc": "2.0", "method": "notifications/message", "params": {}}) + "\n").encode()
@@ -400,6 +400,15 @@ def run_per_request(ctl: explorer.Ctl, cfg: Dict[str, Any]) -> Dict[str, Any]:
         elif grouping == 2:
             # all answers in one JSON-RPC batch array (no version agreed: batches are accepted)
             proc.stdout.feed((json.dumps(answers) + "\n").encode())
+        elif grouping >= 3 + len(STRAYS):
+            # a plain-text log line on stdout, then the answers, the read ending inside a multi-byte character (or, with
+            # ASCII-only answers, in the middle); second variant: two junk lines around the first answer
+            raw = [(json.dumps(a, ensure_ascii=False) + "\n").encode("utf-8") for a in answers]
+            junk = b"INFO plain log line, not JSON\n"
+            blob = (junk + b"".join(raw)) if grouping == 3 + len(STRAYS) else (junk + raw[0] + junk + b"".join(raw[1:]))
+            cut = next((i + 1 for i, b in enumerate(blob) if b >= 0x80), len(blob) // 2)
+            proc.stdout.feed(blob[:cut])
+            proc.stdout.feed(blob[cut:])
         else:
             # a batch array with a member that is no valid message in front of, and between, the answers
             stray = STRAYS[grouping - 3]
@@ -679,7 +688,9 @@ def run(tier: str, only=None) -> core.Result:
         sched.absorb(res, "stdio-carrier", RUN_STDIO, out, scfgs)
         sched.debug_pass(res, "stdio-carrier", RUN_STDIO, scfgs)
     import itertools as _it
-    prcfgs = [{"ids": list(c)} for n in (2, 3) for c in _it.combinations(PR_IDS, n) if not ({"int", "digits"} <= set(c))]
+    prcfgs = [{"ids": list(c)} for n in (2, 3) for c in _it.combinations(PR_IDS, n) if not ({"int", "digits"} <= set(c))
+              and not ("uni" in c and n == 3)]
+    prcfgs += [{"ids": ["uni", "str", "zero"]}, {"ids": ["str", "uni", "int"]}]
     prcfgs += [{"ids": idl, "result": sh} for idl in (["str", "int"], ["zero", "empty", "neg"])
                for sh in ("list", "str", "num", "float", "true", "false", "zero", "empty-str", "empty-list", "empty-obj", "nested-list")]
     prcfgs += [{"ids": idl, "first_tail": t, "first_dies": d} for idl in (["str", "int"], ["zero", "empty", "neg"])
